@@ -20,7 +20,7 @@ CHECKS = {
     },
     "C03": {
         "modules": ["PGV.Props.C03"], "audits": ["PGV/Audit/C03.lean"],
-        "streams": ["walk-zero", "flat", "iface-probe"], "thorough_seeds": 4,
+        "streams": ["walk-zero", "flat", "iface-probe", "walk-deep"], "thorough_seeds": 4,
         "assumptions": WALK_ASSUME,
         "explanation": "theorems: required writes its clause iff the value is empty (zero / length 0), supplied values get no clause, every table-dispatched rule is skipped on zero values, missing Map/Url entries violate required; streams compare whole error strings over every kind, zero and non-zero",
     },
